@@ -8,4 +8,5 @@ let () =
   | "runcache" -> Runcachemodel.run_runcache ic
   | "find" -> Findmodel.run_find ic
   | "glob" -> Globmodel.run_glob ic
+  | "report" -> Reportmodel.run_report ic
   | m -> prerr_endline ("unknown mode " ^ m); exit 2
